@@ -54,3 +54,22 @@ package utils
 //@ nondet
 //@ loop 0 modifies fresh
 //@ modifies nothing
+
+// The label values of the already selected servers, per label: every selected server is
+// looked at (the scan has no early exit — a server without metadata is skipped, it does
+// not end the scan), so a later member's labels are never hidden by an earlier one.
+//
+//@ func GroupingValueWithLabel
+//@ property C19
+//@ trusted
+//@ loop 0 exhaustive
+//@ loop 1 exhaustive
+//@ modifies nothing
+//@ note trusted body (gods set iterator, map of sets): only the structural obligations are checked
+
+//@ func GroupingCandidatesWithLabelValue
+//@ property C19
+//@ trusted
+//@ loop 0 exhaustive
+//@ modifies nothing
+//@ note trusted body: only the structural obligation is checked
